@@ -373,6 +373,12 @@ class HarnessEvaluator:
         kind = self.kind
         if kind == "uniform":
             return torch.full((W,), 2.0**-13, dtype=torch.float32), _value(rng, kind)
+        if kind == "uniform-kept":
+            # an evaluator that answers from a table it keeps (a uniform-prior baseline, an evaluation
+            # cache, a preallocated output buffer): the SAME tensor object on every call
+            if not hasattr(self, "_kept"):
+                self._kept = torch.full((W,), 2.0**-13, dtype=torch.float32)
+            return self._kept, _value(rng, "uniform")
         legal = legal_ids(pos)
         if not legal:
             # no move is possible and the game is not over: outside the property's domain, the
